@@ -1028,6 +1028,46 @@ func header(count uint32) []byte {
 type validRepr struct {
 	name string
 	repr []byte
+	lens [][2]int // (offset, width) of every top-level length varint (key length, value length)
+}
+
+// lengthFields returns the positions of the key/value length varints of encode(seq, count, es).
+func lengthFields(es []ent) [][2]int {
+	var out [][2]int
+	off := headerLen
+	for _, e := range es {
+		off++ // kind
+		w := len(binary.AppendUvarint(nil, uint64(len(e.key))))
+		out = append(out, [2]int{off, w})
+		off += w + len(e.key)
+		if hasValue(e.kind) {
+			w := len(binary.AppendUvarint(nil, uint64(len(e.val))))
+			out = append(out, [2]int{off, w})
+			off += w + len(e.val)
+		}
+	}
+	return out
+}
+
+// lengthMenu: boundary values for a length field whose string has n bytes, followed by rest bytes to
+// the end of the representation. Each is a varint ENCODING (so that non-canonical and overlong
+// encodings are in the menu too).
+func lengthMenu(n, rest int) [][]byte {
+	u := func(v uint64) []byte { return binary.AppendUvarint(nil, v) }
+	vals := []uint64{0, 1, 127, 128, uint64(n), uint64(rest), uint64(rest) + 1, 16383, 16384,
+		1<<31 - 1, 1 << 31, 1<<32 - 6, 1<<32 - 5, 1<<32 - 4, 1<<32 - 3, 1<<32 - 2, 1<<32 - 1, 1 << 32, 1<<32 + 1, 1<<63 - 1, 1<<64 - 1}
+	if n > 0 {
+		vals = append(vals, uint64(n)-1)
+	}
+	vals = append(vals, uint64(n)+1)
+	var out [][]byte
+	for _, v := range vals {
+		out = append(out, u(v))
+	}
+	// non-canonical and overlong encodings of small values, and an unterminated varint
+	out = append(out, []byte{0x80, 0x00}, []byte{0x81, 0x80, 0x00}, []byte{0xff, 0xff, 0xff, 0xff, 0xff, 0xff, 0xff, 0xff, 0xff, 0x7f},
+		[]byte{0x80, 0x80, 0x80, 0x80, 0x80, 0x80, 0x80, 0x80, 0x80, 0x80, 0x01}, []byte{0xff})
+	return out
 }
 
 func rep(n int, ch byte) string { return strings.Repeat(string(rune(ch)), n) }
@@ -1035,7 +1075,7 @@ func rep(n int, ch byte) string { return strings.Repeat(string(rune(ch)), n) }
 func validReprs() []validRepr {
 	mk := func(name string, ops []Op) validRepr {
 		es := records(ops)
-		return validRepr{name, encode(baseSeq, countOf(es), es)}
+		return validRepr{name, encode(baseSeq, countOf(es), es), lengthFields(es)}
 	}
 	out := []validRepr{
 		mk("four-ops", []Op{{K: "set", Key: "a", Val: "1"}, {K: "del", Key: "b"}, {K: "merge", Key: "a", Val: "2"}, {K: "sdel", Key: "b"}}),
@@ -1051,13 +1091,13 @@ func validReprs() []validRepr {
 	// methods that produce it are unexported): IngestSST(table 7), IngestSSTWithBlobs(table 8,
 	// blob file 9), Excise [a,c).
 	ing := []ent{{kIngestSST, []byte{7}, nil}, {kIngestBlobs, []byte{8}, []byte{1, 9}}, {kExcise, []byte("a"), []byte("c")}}
-	out = append(out, validRepr{"flushable-ingest", encode(baseSeq, 3, ing)})
+	out = append(out, validRepr{"flushable-ingest", encode(baseSeq, 3, ing), lengthFields(ing)})
 	return out
 }
 
 type plan struct {
 	name  string
-	n     int                                   // number of work items
+	n     int                                                 // number of work items
 	items func(i int, f func(x []byte, origin func() string)) // inputs of work item i
 	deep  int
 	size  int64 // number of inputs
@@ -1146,6 +1186,24 @@ func bytePlans(thorough bool) []plan {
 					b := b
 					f(x, func() string {
 						return fmt.Sprintf("%s (%d bytes) with byte %d = 0x%02x (was 0x%02x)", v.name, len(v.repr), i, b, v.repr[i])
+					})
+				}
+			}})
+	}
+	// every top-level length varint of every valid representation replaced by every boundary value
+	// of lengthMenu (the bytes after the field are kept, so that a huge length is followed by real
+	// data: the bounds check must reject it, whatever its arithmetic does)
+	for _, v := range validReprs() {
+		v := v
+		plans = append(plans, plan{name: "length fields of " + v.name, n: len(v.lens), deep: deepAll, size: int64(len(v.lens)) * 28,
+			items: func(i int, f func([]byte, func() string)) {
+				off, w := v.lens[i][0], v.lens[i][1]
+				old, _ := binary.Uvarint(v.repr[off : off+w])
+				for _, enc := range lengthMenu(int(old), len(v.repr)-off-w) {
+					enc := enc
+					x := append(append(clone(v.repr[:off]), enc...), v.repr[off+w:]...)
+					f(x, func() string {
+						return fmt.Sprintf("%s (%d bytes) with the length varint at offset %d (was %d) replaced by % x", v.name, len(v.repr), off, old, enc)
 					})
 				}
 			}})
